@@ -99,7 +99,7 @@ class C10(Prop):
     async def run_case(self, case, acc, ctx):
         i = case["i"]
         r = env.rng("C10", case["seed"], i)
-        zone = env.ZONES[i % len(env.ZONES)]
+        zone = env.ZONES[env.sig("zone", i) % len(env.ZONES)]
         inst = self._instants(zone, case["seed"])
         now = r.choice(inst)
         clock.set_zone(zone)
